@@ -177,6 +177,14 @@ def step (st : St) (line : String) : St × List String :=
     let k := vidx v
     let w' := w.upd k (·.emplaceBack (parseElem vals))
     fin w' [dumpVec k (w'.vecs k)]
+  | ["fillcap", v] =>
+    -- emplace_back an element of the vector's own fixed sizes (all values 7) until size() == capacity()
+    -- (lists without VaryingSize: the capacity alone is the contract)
+    let k := vidx v
+    let fsv := ((w.vecs k).map (·.fs)).getD []
+    let e : Elem := (List.zip st.ps fsv).map (fun (p, f) => if p.kind = .fixed then List.replicate f 7 else [7])
+    let w' := w.upd k (fun x => (List.range (x.cap - x.size)).foldl (fun y _ => y.emplaceBack e) x)
+    fin w' [dumpVec k (w'.vecs k)]
   | ["pop", v] =>
     let k := vidx v
     let w' := w.upd k (·.popBack)
